@@ -17,6 +17,7 @@ checked for satisfiability, no path is enumerated, nothing is executed.
 from __future__ import annotations
 
 import ast
+import os
 
 from . import terms as T
 from .model import AnalysisError, FuncInfo, Repo
@@ -32,6 +33,74 @@ _CMPOPS = {
     ast.Lt: '<', ast.LtE: '<=', ast.Gt: '>', ast.GtE: '>=', ast.Eq: '==', ast.NotEq: '!=',
     ast.In: 'in', ast.NotIn: 'not in', ast.Is: 'is', ast.IsNot: 'is not',
 }
+
+
+from .model import known_names as _known_names  # noqa: E402
+
+
+_HELPERS = {}
+_HELPERS_BUSY = set()
+
+
+def _helper_summary(repo, qual, skip):
+    """(params, kwonly, default terms, return term) of an effect-free straight-line helper, or None."""
+    key = (repo.root, qual)
+    if key in _HELPERS:
+        return _HELPERS[key]
+    if key in _HELPERS_BUSY:
+        return None
+    _HELPERS_BUSY.add(key)
+    out = None
+    try:
+        fi = repo.funcs[qual]
+        a = fi.node.args
+        if not (fi.parent is not None or fi.node.decorator_list or a.vararg or a.kwarg
+                or any(isinstance(n, (ast.Yield, ast.YieldFrom, ast.Await)) for n in ast.walk(fi.node))):
+            fa = FuncAnalysis(repo, fi, versioned=False)
+            rets, ok = [], True
+            for e in fa.events:
+                if e.d.get('in_lambda') or e.d.get('in_comp'):
+                    continue
+                if e.kind == 'return':
+                    rets.append(e)
+                elif e.kind in ('raise', 'yield', 'yield_from', 'store_sub', 'store_attr', 'aug_sub', 'aug_attr', 'del', 'delattr',
+                                'store_global', 'store_nonlocal', 'break', 'continue', 'with', 'assert') or (e.kind == 'call' and e.stmt):
+                    ok = False
+                if e.loops:
+                    ok = False
+            if ok and rets and not fa.unrecognised:
+                acc = T.C(None) if rets[-1].cguards else None
+                for e in reversed(rets):
+                    conds = [(c if pol else T.not_(c)) for (c, pol), k in zip(e.guards, e.gkinds) if k == 'if']
+                    if acc is None or not conds:
+                        acc = e.value
+                    else:
+                        c = conds[0] if len(conds) == 1 else T.nary('and', tuple(conds))
+                        acc = T.ite(c, e.value, acc)
+                bad = False
+                for x in T.walk(acc):
+                    if isinstance(x, tuple) and x and (x[0] in ('mut', 'nth', 'unk', 'phi', 'after', 'elem')
+                                                       or (x[0] == 'g' and isinstance(x[1], str) and x[1].startswith('$'))):
+                        bad = True
+                        break
+                if not bad:
+                    params = [x.arg for x in list(a.posonlyargs) + list(a.args)][skip:]
+                    kwonly = [x.arg for x in a.kwonlyargs]
+                    dterms = {}
+                    pos = list(a.posonlyargs) + list(a.args)
+                    for arg, d in list(zip(pos[len(pos) - len(a.defaults):], a.defaults)) + \
+                            [(x, d) for x, d in zip(a.kwonlyargs, a.kw_defaults) if d is not None]:
+                        try:
+                            dterms[arg.arg] = T.C(ast.literal_eval(d))
+                        except (ValueError, SyntaxError, TypeError):
+                            dterms[arg.arg] = None
+                    out = (params, kwonly, dterms, acc)
+    except Exception:       # the helper cannot be summarised: keep the call
+        out = None
+    finally:
+        _HELPERS_BUSY.discard(key)
+    _HELPERS[key] = out
+    return out
 
 
 def _ways(stmts, in_loop=False):
@@ -474,6 +543,27 @@ class FuncAnalysis:
         return None
 
     def _s_Assign(self, s):
+        if len(s.targets) == 1 and isinstance(s.targets[0], ast.Name) and s.targets[0].id in self._mutated \
+                and isinstance(s.value, ast.Dict) and s.value.keys \
+                and all(isinstance(k, ast.Constant) and isinstance(k.value, str) for k in s.value.keys):
+            # d = {'a': x, 'b': y} that is filled further later  ==  d = {}; d['a'] = x; d['b'] = y
+            name = s.targets[0].id
+            # the values are evaluated before the dict exists
+            vals = []
+            for i, vn in enumerate(s.value.values):
+                tmp = f'$lit{s.lineno}_{i}'
+                self.env[tmp] = self.ev(vn)
+                vals.append(tmp)
+            first = ast.copy_location(ast.Assign([ast.Name(name, ast.Store())], ast.Dict([], [])), s)
+            self._s_Assign(first)
+            for k, tmp in zip(s.value.keys, vals):
+                st = ast.copy_location(ast.Assign([ast.Subscript(ast.Name(name, ast.Load()), k, ast.Store())],
+                                                  ast.Name(tmp, ast.Load())), s)
+                ast.fix_missing_locations(st)
+                self._s_Assign(st)
+            for tmp in vals:
+                self.env.pop(tmp, None)
+            return None
         v = self.ev(s.value)
         if len(s.targets) == 1 and isinstance(s.targets[0], ast.Name) and s.targets[0].id in self._mutated \
                 and isinstance(s.value, (ast.List, ast.Dict, ast.Set)) and v[0] in ('list', 'dict', 'set'):
@@ -1181,6 +1271,41 @@ class FuncAnalysis:
                 return it[1][1]
         return ('comp', 'dict', ('kv', k, v), gens)
 
+    # -- helpers the checker has never heard of ------------------------------------------------
+    def _inline_unknown_helper(self, f, args, kws):
+        """A call of a package-local, effect-free function (module function, method of the same class
+        through self, or functools.partial of one) whose name no rule or reference mentions is replaced
+        by the value it returns: extracting an expression into a new helper does not change the terms."""
+        repo = self.repo
+        q, pre, skip = None, [], 0
+        if f[0] == 'g' and f[1] in repo.funcs and repo.funcs[f[1]].cls is None:
+            q = f[1]
+        elif f[0] == 'attr' and f[1] == T.V('self') and self.fi.cls is not None and (self.fi.cls + '.' + f[2]) in repo.funcs:
+            q, skip = self.fi.cls + '.' + f[2], 1
+        elif f[0] == 'call' and f[1] == T.G('functools.partial') and f[2] and not f[3] and f[2][0][0] == 'g' \
+                and f[2][0][1] in repo.funcs and repo.funcs[f[2][0][1]].cls is None:
+            q, pre = f[2][0][1], list(f[2][1:])
+        if q is None or q.rsplit('.', 1)[1] in _known_names() or q == self.fi.qualname:
+            return None
+        sm = _helper_summary(repo, q, skip)
+        if sm is None:
+            return None
+        params, kwonly, dterms, body = sm
+        args = pre + list(args)
+        if any(a[0] == 'star' for a in args) or any(k[0] != 'kw' for k in kws) or len(args) > len(params):
+            return None
+        bound = dict(zip(params, args))
+        for k in kws:
+            if (k[1] not in params and k[1] not in kwonly) or k[1] in bound:
+                return None
+            bound[k[1]] = k[2]
+        for p in params + kwonly:
+            if p not in bound:
+                if dterms.get(p) is None:
+                    return None
+                bound[p] = dterms[p]
+        return T.subst(body, {T.V(k): v for k, v in bound.items()})
+
     def _canon_args(self, f, args, kws):
         """One spelling per call of a package-local function: keyword arguments that name the next
         positional parameters are passed positionally (f(a, y=b) == f(a, b))."""
@@ -1209,6 +1334,13 @@ class FuncAnalysis:
         return args, kws
 
     def _e_Call(self, n, stmt=False):
+        if isinstance(n.func, ast.Attribute) and n.func.attr == 'fromkeys' and isinstance(n.func.value, ast.Name) \
+                and n.func.value.id == 'dict' and 'dict' not in self.env and len(n.args) == 2 and not n.keywords \
+                and isinstance(n.args[1], ast.Constant):
+            # dict.fromkeys(xs, c)  ==  {k: c for k in xs}
+            comp = ast.DictComp(ast.Name('_k', ast.Load()), n.args[1],
+                                [ast.comprehension(ast.Name('_k', ast.Store()), n.args[0], [], 0)])
+            return self._e_DictComp(ast.fix_missing_locations(ast.copy_location(comp, n)))
         f = self.ev(n.func)
         if not n.args and not n.keywords and f in (T.G('list'), T.G('dict')):
             return self._new('list' if f == T.G('list') else 'dict')      # list() is [] , dict() is {}
@@ -1237,6 +1369,10 @@ class FuncAnalysis:
             else:
                 kws.append(T.kw(k.arg, self.ev(k.value)))
         args, kws = self._canon_args(f, args, kws)
+        if not stmt:
+            inl = self._inline_unknown_helper(f, args, kws)
+            if inl is not None:
+                return inl
         t = T.call(f, args, kws)
         # calls that consume state (next(it), x.pop(), f.readline() ...) denote a new value each
         # time they are evaluated: number the evaluations of one call term
